@@ -34,6 +34,8 @@ structure Sv where
   binLimit : Option Nat := none                   -- set by `binarylimit N`: overrides the URI's chunk limit
   marks : List Nat := []                          -- end offsets of the complete responses written so far
   blockKinds : List Bool := []                    -- per executed block: was it a command list
+  noIdle : Bool := false                          -- the server refuses `idle` (no permission / a proxy without it)
+  refusedIdle : Bool := false                     -- it has refused one
 deriving Repr, Inhabited
 
 /-- deterministic picture bytes (contain protocol look-alikes) -/
@@ -201,7 +203,10 @@ def line (s : Sv) (l : Bytes) : Sv :=
       else { s with list := some (acc ++ [l]) }
     | none =>
       if l == str "command_list_ok_begin" then { s with list := some [] }
-      else if l == str "idle" then (if s.pend.isEmpty then { s with idle := true } else flushIdle s)
+      else if l == str "idle" then
+        (if s.noIdle then
+          emitOut { s with refusedIdle := true } (ack 4 0 (str "idle") (str "you don't have permission for \"idle\""))
+         else if s.pend.isEmpty then { s with idle := true } else flushIdle s)
       else match isPassword l with
         | some pw =>
           if pw == str "secret" then emitOut s (str "OK\n")
